@@ -1,0 +1,39 @@
+//go:build verif
+
+package gohlslib
+
+// Exporters for the verification harness in /verif (slice muxconc: C06 concurrent half, C07).
+// Nothing in this file is compiled into normal builds.
+
+// VerifMuxerTryLock reports whether the muxer mutex is free (it is released again at once).
+func VerifMuxerTryLock(m *Muxer) bool {
+	if m.mutex.TryLock() {
+		m.mutex.Unlock()
+		return true
+	}
+	return false
+}
+
+// VerifMuxerStreamCounters returns, for stream i, nextSegmentID, nextPartID, hasContent and the
+// number of parts of the open segment. The caller must make sure the writer is idle.
+func VerifMuxerStreamCounters(m *Muxer, i int) (nextSegmentID uint64, nextPartID uint64, hasContent bool, openParts int) {
+	m.mutex.Lock()
+	defer m.mutex.Unlock()
+	s := m.streams[i]
+	if seg, ok := s.nextSegment.(*muxerSegmentFMP4); ok && seg != nil {
+		openParts = len(seg.parts)
+	}
+	return s.nextSegmentID, s.nextPartID, s.hasContent(), openParts
+}
+
+// VerifMuxerStreamCount returns the number of streams.
+func VerifMuxerStreamCount(m *Muxer) int { return len(m.streams) }
+
+// VerifMuxerMediaPlaylistPath returns the file name of stream i's media playlist.
+func VerifMuxerMediaPlaylistPath(m *Muxer, i int) string { return mediaPlaylistPath(m.streams[i].id) }
+
+// VerifMuxerPartPath returns the file name under which part `id` of stream i is (or will be) served.
+func VerifMuxerPartPath(m *Muxer, i int, id uint64) string {
+	s := m.streams[i]
+	return partPath(s.prefix, s.id, id)
+}
